@@ -8,11 +8,15 @@ import EqsigVerif.Handlers.Fns
 import EqsigVerif.Handlers.DesignSpectra
 import EqsigVerif.Handlers.Loader
 import EqsigVerif.Handlers.SignalSM
+import EqsigVerif.Handlers.Fourier
+import EqsigVerif.Handlers.TimeStep
+import EqsigVerif.Handlers.Surface
+import EqsigVerif.Handlers.Misc
 /-! table of all driver handlers -/
 namespace EqsigVerif.Handlers
 open EqsigVerif.Wire
 
 def table : List (String × Handler) :=
-  Displacements.handlers ++ Sdof.handlers ++ Fns.handlers ++ DesignSpectra.handlers ++ Loader.handlers ++ SignalSM.handlers ++ Peaks.handlers ++ Switched.handlers ++ PowerLaw.handlers ++ Im.handlers.map (fun (p : String × Handler) => (if p.1 = "peaks" then "pgx" else p.1, p.2))
+  Displacements.handlers ++ Sdof.handlers ++ Fns.handlers ++ DesignSpectra.handlers ++ Loader.handlers ++ SignalSM.handlers ++ Fourier.handlers ++ TimeStep.handlers ++ Surface.handlers ++ Misc.handlers ++ Peaks.handlers ++ Switched.handlers ++ PowerLaw.handlers ++ Im.handlers.map (fun (p : String × Handler) => (if p.1 = "peaks" then "pgx" else p.1, p.2))
 
 end EqsigVerif.Handlers
